@@ -630,8 +630,35 @@ def functor_calls(F, name):
     return sorted(out, key=lambda n: n["id"])
 
 
+def c16_noexcept(ctx, prog):
+    """G6x: a sink that can fail by exception lets the exception out: no function of reproc++ that is declared non-throwing grows a
+    string or container, writes to a stream or takes a lock (operations that report failure by throwing) - inside `noexcept` the
+    exception cannot reach the caller of drain / run, it ends the process with everything received so far lost.  (The exception
+    specification of each function and the throwing potential of each callee are resolved by clang in the witness TU.)"""
+    import re
+    THROWING = re.compile(r"^std::(__cxx11::)?(basic_string|vector|basic_ostream|basic_ostringstream|deque|list|map|unordered_map|lock_guard|unique_lock|mutex)\b")
+    hits = []
+    nfun = 0
+    seen = set()
+    for F in prog.funcs_all:
+        if "/reproc++/" not in F.file or not F.d.get("nothrow") or (F.qname, F.d.get("line")) in seen:
+            continue
+        seen.add((F.qname, F.d.get("line")))
+        nfun += 1
+        for x in F.nodes.values():
+            nm = x.get("qcallee") or x.get("ctor") or ""
+            if x.get("maythrow") and THROWING.match(nm):
+                hits.append("%s (line %d): %s" % (F.qname, x["l"][0], nm[:60]))
+    if nfun < 10:
+        raise AnalysisBroken("C16.G6x: only %d non-throwing functions of reproc++ seen (exception specifications not extracted?)" % nfun)
+    ctx.ob("C16.G6x", "reproc++: non-throwing functions", "no function declared noexcept performs an operation of the standard library that "
+           "reports failure by exception (a failing sink stops drain with its error, it does not terminate the process)", not hits,
+           {"noexcept_functions": nfun, "throwing_operations_inside": sorted(set(hits))[:4]})
+
+
 def c16_mirror(ctx):
     prog = ctx.prog("cxx")
+    c16_noexcept(ctx, prog)
     drains = [F for F in prog.funcs_all if F.qname == "reproc::drain"]
     if len(drains) < 2:
         raise AnalysisBroken("reproc::drain is not instantiated by the witness TU")
